@@ -24,7 +24,7 @@ NO_BB_FLAVOUR = True       # (formatted_kevents prints str(bytes): BytesWarning 
 NO_OPTIMIZED_FLAVOUR = True      # the hosts are subprocesses of their own; the -O / -OO interpreters are among them
 THOROUGH_SHARDS = 1
 HOSTS = ('real', 'darwin', 'scrambled', 'permuted', 'bsdlike', 'windowslike', 'real-hashseed-1', 'real-hashseed-4711', 'real-ascii-console',
-         'real-python-O', 'real-python-OO', 'real-python-Werror', 'real-tty', 'real-logging-debug')
+         'real-python-O', 'real-python-OO', 'real-python-Werror', 'real-python-Xdev', 'real-tty', 'real-logging-debug')
 
 
 SCRATCH = [None]       # working directory and HOME of the host runs (so that relative and per-user paths are harmless)
@@ -55,7 +55,8 @@ def run_host(host, seed):
         # how the interpreter was started is part of the machine: -O compiles asserts away, -OO strips docstrings too
         # (-W error: a warning - a deprecated call, an invalid escape - raises instead of printing.  Not -bb: the event
         # listing prints its payload with str(bytes) on purpose, which that debugging switch forbids.)
-        flags = ['-W', 'error'] if host.endswith('Werror') else [host.rsplit('-', 1)[1].join(('-', ''))]
+        flags = ['-W', 'error'] if host.endswith('Werror') else ['-X', 'dev'] if host.endswith('Xdev') else \
+            [host.rsplit('-', 1)[1].join(('-', ''))]
         host = 'real'
     if host == 'real-logging-debug':
         # the embedding application has logging configured at DEBUG (how verbose the process logs is part of its state)
